@@ -396,7 +396,8 @@ func (y *Any) HasDefault() bool {
 }
 
 func (y *Any) DefaultValue() interface{} {
-	panic("anydata cannot have default value")
+	// never has one, see HasDefault
+	return nil
 }
 
 func (y *Any) Units() string {
